@@ -29,6 +29,7 @@ class C04(OptCheck):
                 yield case(d, [], [["--", tok]]), "malformed-after-dd"
                 yield case(d, [], [["--out", tok]]), "malformed-as-value"
                 yield case(dg, [], [["x", tok]]), "malformed-greedy"
+                yield "ctor %s" % hx(tok), "validating-ctor"
         # very long tokens
         for nlet in ([20000] if tier == "quick" else [20000, 100000]):
             yield case(d, [], [["-" + "v" * nlet]]), "long-bundle"
